@@ -14,11 +14,14 @@ from __future__ import annotations
 
 import itertools
 import logging
+import os
 import pickle  # noqa: S403
 import re
 import sys
+import tempfile
 import warnings
 from abc import abstractmethod
+from contextlib import suppress
 from importlib.metadata import version
 from pathlib import Path
 from typing import TYPE_CHECKING, SupportsFloat
@@ -396,12 +399,38 @@ def perform_cached_doit(
     h = get_readable_hash(unevaluated_expr)
     filename = cache_directory / f"{h}.pkl"
     if filename.exists():
-        with open(filename, "rb") as f:
-            return pickle.load(f)  # noqa: S301
-    _LOGGER.warning(
-        f"Cached expression file {filename} not found, performing doit()..."
-    )
+        try:
+            with open(filename, "rb") as f:
+                return pickle.load(f)  # noqa: S301
+        except Exception:  # noqa: BLE001
+            # e.g. a truncated file left behind by a process that was killed while
+            # writing, or a file written with an incompatible version of SymPy
+            _LOGGER.warning(
+                f"Cached expression file {filename} is unreadable, performing doit()..."
+            )
+    else:
+        _LOGGER.warning(
+            f"Cached expression file {filename} not found, performing doit()..."
+        )
     unfolded_expr = unevaluated_expr.doit()
-    with open(filename, "wb") as f:
-        pickle.dump(unfolded_expr, f)
+    _dump_atomically(unfolded_expr, filename)
     return unfolded_expr
+
+
+def _dump_atomically(obj, filename: Path) -> None:
+    """Pickle to a temporary file in the same directory and rename it into place.
+
+    Readers (other processes that share the cache directory) therefore see either no
+    file or a complete one, also if this process is killed while writing.
+    """
+    fd, tmp_name = tempfile.mkstemp(
+        dir=filename.parent, prefix=f"{filename.name}.", suffix=".tmp"
+    )
+    try:
+        with os.fdopen(fd, "wb") as f:
+            pickle.dump(obj, f)
+        os.replace(tmp_name, filename)
+    except BaseException:
+        with suppress(OSError):
+            os.remove(tmp_name)
+        raise
